@@ -669,6 +669,9 @@ func (x *Exec) evalIndex(env *CEnv, n *CIndex) (*CV, error) {
 		dom, val := x.mapHeaps(env.st, u)
 		kt := x.cvTerm(i, &CV{T: Term{"", x.sortOf(u.Key())}, Ty: u.Key()})
 		_ = dom
+		if env.specHeaps != nil {
+			env.specHeaps[x.mapValName(u)] = true
+		}
 		return &CV{T: Select(Select(val, bt), kt), Ty: u.Elem()}, nil
 	case *types.Pointer:
 		if arr, ok := u.Elem().Underlying().(*types.Array); ok {
